@@ -10,7 +10,7 @@
     [Pem.Bounds]; every [RPanic] site of the interpreter is discharged by a static fact of the
     certificate or by an index bound. *)
 From Coq Require Import FMapPositive MSets.MSetPositive Lia SetoidList.
-From Sq Require Import Base.Bytes Apply.Model Pem.Model Pem.Proofs Pem.Bounds Pem.WfSafe Pem.Wf Pem.NoPanicCert.
+From Sq Require Import Base.Bytes Apply.Model Pem.Model Pem.Proofs Pem.Bounds Pem.WfSafe Pem.Wf Pem.WfRoot Pem.NoPanicCert.
 
 Local Open Scope N_scope.
 
@@ -285,9 +285,14 @@ Section NoPanic.
       first token although [trim_to_terminator] has just tried the pruned terminators there, i.e.
       when pruning ([first_non_whitespace]) and [next_match] ([first_trimmed_raw]) disagree on the
       first token.  [tok0_ok]: the first token of the array is not a meta and both views of its raw
-      coincide.  It is only needed when parsing starts at index 0. *)
+      coincide ([first_trimmed_raw] cuts at inner white space: they differ on a quoted first token
+      with a blank in it) or its trimmed raw is no keyword hint of the graph.  Only needed when
+      parsing starts at index 0. *)
+  Definition kw_raw_free (r : N) : Prop :=
+    forall c raws a, simple_of g c = ROk (Some (raws, [], a)) -> a = true -> memN r raws = false.
   Definition tok0_ok : Prop :=
-    forall t0, get toks 0 = Some t0 -> p_meta t0 = false /\ p_fnw t0 = Some (p_ftr t0).
+    forall t0, get toks 0 = Some t0 ->
+      p_meta t0 = false /\ (p_fnw t0 = Some (p_ftr t0) \/ kw_raw_free (p_ftr t0)).
   Definition Tok0 (i : N) : Prop := 0 < i \/ tok0_ok.
   Lemma Tok0_le i j : i <= j -> Tok0 i -> Tok0 j.
   Proof. intros H [H0|H0]; [left; lia|right; exact H0]. Qed.
@@ -773,12 +778,12 @@ Section NoPanic.
         destruct (N.eq_dec idx 0) as [Ez|Ez]; [|left; lia]. subst idx.
         right. right. split; [exact H0|].
         intros c t0 m Hcin Ht0 (raws & tys & a & Hsim & Hcd) Hk Hm.
-        destruct (H0 t0 Ht0) as [_ Hf].
+        rewrite (kwlike_of_simple _ _ _ _ Hsim) in Hk. apply andb_true_iff in Hk as [Hk Ha].
+        apply is_empty_nil in Hk. subst tys. rewrite intersects_nil, orb_false_r in Hcd.
+        destruct (H0 t0 Ht0) as [_ [Hf|Hf]]; [|rewrite (Hf _ _ _ Hsim Ha) in Hcd; discriminate].
         unfold prune in Hpr. rewrite (first_nonws_0 len t0 E Ht0 Hf) in Hpr.
         destruct (prune_aux_total (p_ftr t0) (p_types t0) ts Hp) as (l & Hl' & _ & Hkeep).
         rewrite Hl' in Hpr. inversion Hpr; subst l.
-        rewrite (kwlike_of_simple _ _ _ _ Hsim) in Hk. apply andb_true_iff in Hk as [Hk _].
-        apply is_empty_nil in Hk. subst tys. rewrite intersects_nil, orb_false_r in Hcd.
         destruct (first_term_matches_false _ _ _ _ c Hhit (Hkeep _ _ _ _ Hcin Hsim Hcd)) as (m' & Hm' & Hf').
         rewrite Hm in Hm'. inversion Hm'; subst. exact Hf'.
       - intros tm Htm. apply (greedy_match_spec g toks rec HrecB) in Htm; [|lia].
@@ -1286,3 +1291,104 @@ Section NoPanic.
       - destruct (tok_def len idx (Hleaf eq_refl) Hl) as [t ->]. cbn [bind].
         destruct (p_kind t =? k_bracketed g); apply np_ok.
     Qed.
+  End WithRec.
+
+  (* ---------------------------------------------------------------- tying the knot *)
+  Theorem match_node_np fuel : forall n idx len terms,
+    idx < len -> len <= ntoks -> Tok0 idx -> Callable n terms ->
+    NPr (match_node g toks rx fuel n idx len terms).
+  Proof.
+    induction fuel as [|f IH]; intros n idx len terms Hi Hl H0 Hc; cbn [match_node]; [apply np_fuel|].
+    destruct (callable_present _ _ Hc) as [i Hget].
+    apply match_node_body_gen with (i := i); auto; try lia;
+      [exact (match_node_bounds g toks rx f)|intros nd j l t m H1 H2; eapply match_node_code1; eassumption].
+  Qed.
+
+  (** at the end of the slice: only the nodes that [eof_safe_b] follows are entered with [idx = len] *)
+  Theorem match_node_np_eof d : forall fuel n len terms,
+    eof_safe_b g d n = true -> len <= ntoks -> Tok0 len -> Callable n terms ->
+    NPr (match_node g toks rx fuel n len len terms).
+  Proof.
+    induction d as [|d IH]; intros fuel n len terms He Hl H0 Hc; [discriminate|].
+    destruct fuel as [|f]; cbn [match_node]; [apply np_fuel|].
+    cbn [eof_safe_b] in He. destruct (get (g_nodes g) n) as [i|] eqn:Hget; [|discriminate].
+    apply match_node_body_gen with (i := i); auto.
+    - exact (match_node_bounds g toks rx f).
+    - intros c j l t Hj Hlt Ht Hct. apply match_node_np; assumption.
+    - intros nd j l t m H1 H2. eapply match_node_code1; eassumption.
+    - lia.
+    - intros c t Hin Hct. apply IH; auto. unfold pass_children in Hin.
+      destruct (n_node i); try destruct Hin.
+      + destruct target as [tg|]; [|destruct Hin]. apply andb_true_iff in He as [He1 He2].
+        destruct Hin as [<-|Hin]; [exact He1|]. destruct exclude as [ex|]; [|destruct Hin].
+        destruct Hin as [<-|[]]. exact He2.
+      + destruct bstart as [sb|]; [|destruct Hin]. destruct bend as [eb|]; [|destruct Hin].
+        destruct Hin as [<-|[]]. exact He.
+      + destruct (an_exclude d0) as [ex|]; [|destruct Hin]. destruct Hin as [<-|[]]. exact He.
+    - unfold leaf_kind. intro Hk. destruct (n_node i); discriminate.
+  Qed.
+
+  Theorem parse_root_np fuel s e :
+    s <= e -> e <= ntoks -> Tok0 s -> NPr (parse_root g toks rx fuel s e).
+  Proof.
+    intros Hse He H0. unfold parse_root.
+    destruct cert_parts as (_ & _ & (r & -> & Hfl & Heof) & _).
+    assert (Hc : Callable r []) by (eapply flows_callable; [exact Hfl|intros t []]).
+    destruct (N.eq_dec s e) as [->|Hne].
+    - eapply match_node_np_eof; eassumption.
+    - apply match_node_np; auto. lia.
+  Qed.
+End NoPanic.
+
+(* ------------------------------------------------------------------ the theorems *)
+(** every index below [ntoks] holds a token *)
+Definition toks_def (toks : PositiveMap.t ptok) (ntoks : N) : Prop :=
+  forall i, i < ntoks -> exists t, get toks i = Some t.
+
+(** parsing starts behind the first token, or the first token is not a meta and pruning and
+    [next_match] see the same raw of it (see [tok0_ok]) *)
+Definition start_ok (g : grammar) (toks : PositiveMap.t ptok) (s : N) : Prop := 0 < s \/ tok0_ok g toks.
+
+(** With a certificate, whatever the tokens, the regex oracle and the fuel: the only abort left is
+    the recorded "Grammar refers to ... which was not found" at a node whose reference is missing. *)
+Theorem parse_panics_only_dangling g cx : cert_ok_b g cx = true ->
+  forall toks ntoks rx fuel s e p,
+    toks_def toks ntoks -> s <= e -> e <= ntoks -> start_ok g toks s ->
+    parse_root g toks rx fuel s e = RPanic p -> exists n, p = PDangling n /\ dangling_b g n = true.
+Proof.
+  intros Hc toks ntoks rx fuel s e p Htd Hse He H0 H.
+  destruct (parse_root_np g toks rx ntoks Htd cx Hc fuel s e Hse He H0 p H) as [n ->].
+  exists n. split; [reflexivity|]. eapply pem_dangling_sound. exact H.
+Qed.
+
+(** ... and on a closed graph none at all. *)
+Theorem parse_never_panics_cert g cx : cert_ok_b g cx = true -> pem_closed_b g = true ->
+  forall toks ntoks rx fuel s e p,
+    toks_def toks ntoks -> s <= e -> e <= ntoks -> start_ok g toks s ->
+    parse_root g toks rx fuel s e <> RPanic p.
+Proof.
+  intros Hc Hcl toks ntoks rx fuel s e p Htd Hse He H0 H.
+  destruct (parse_panics_only_dangling g cx Hc toks ntoks rx fuel s e p Htd Hse He H0 H) as (n & _ & Hd).
+  rewrite (pem_closed_no_dangling g Hcl n) in Hd. discriminate.
+Qed.
+
+(** the decidable side condition: the computed least certificate is accepted *)
+Theorem parse_never_panics g : panic_safe_b g = true -> pem_closed_b g = true ->
+  forall toks ntoks rx fuel s e p,
+    toks_def toks ntoks -> s <= e -> e <= ntoks -> start_ok g toks s ->
+    parse_root g toks rx fuel s e <> RPanic p.
+Proof. intro H. exact (parse_never_panics_cert g _ H). Qed.
+
+Theorem parse_panics_only_dangling_safe g : panic_safe_b g = true ->
+  forall toks ntoks rx fuel s e p,
+    toks_def toks ntoks -> s <= e -> e <= ntoks -> start_ok g toks s ->
+    parse_root g toks rx fuel s e = RPanic p -> exists n, p = PDangling n /\ dangling_b g n = true.
+Proof. intro H. exact (parse_panics_only_dangling g _ H). Qed.
+
+(** token lists *)
+Lemma toks_def_of_list (l : list ptok) : toks_def (toks_of_list l) (N.of_nat (length l)).
+Proof.
+  intros i Hi. rewrite Pem.WfRoot.toks_of_list_get.
+  destruct (nth_error l (N.to_nat i)) as [t|] eqn:E; [eauto|].
+  apply nth_error_None in E. lia.
+Qed.
